@@ -12,8 +12,11 @@
 
 /* ------------------------------------------------------------------ clock */
 time_t vf_now = 1700000000;
+void (*vf_time_hook)(void);
 time_t time(time_t *t)
 {
+	if (vf_time_hook)
+		vf_time_hook();
 	if (t)
 		*t = vf_now;
 	return vf_now;
